@@ -1,6 +1,130 @@
 import EupsModel.Drv.Util
+import EupsModel.Model.Manifest
 namespace EupsModel.Drv.C18
-open Lean EupsModel EupsModel.Drv
-/-- placeholder until the C18 model exists -/
-def handle : Handler := fun _ => throw "model C18 not built"
+open Lean EupsModel EupsModel.Drv EupsModel.Manifest
+
+def depOfJson (j : Json) : Except String Dep := do
+  pure { product := ← jstr j "product", version := ← jstr j "version", flavor := ← jstrOpt j "flavor",
+         tablefile := ← jstrOpt j "tablefile", instDir := ← jstrOpt j "instDir", distId := ← jstrOpt j "distId",
+         isOpt := ← jbool j "isOpt", recurse := ← jbool j "recurse", extra := ← jstrs j "extra" }
+
+def depToJson (d : Dep) : Json :=
+  Json.mkObj [("product", ofStr d.product), ("version", ofStr d.version), ("flavor", ofStrOpt d.flavor),
+    ("tablefile", ofStrOpt d.tablefile), ("instDir", ofStrOpt d.instDir), ("distId", ofStrOpt d.distId),
+    ("isOpt", d.isOpt), ("recurse", d.recurse), ("extra", ofStrs d.extra)]
+
+def errName : ReadErr → String
+  | .header => "header"
+  | .line => "line"
+
+def tagListOf (j : Json) : Except String TagList := do
+  let mut t := TagList.empty (← jstr j "tag") (← jstrOpt j "defFlavor")
+  for a in (← jarr j "adds") do
+    t := t.addProduct (← jstr a "product") (← jstr a "version") (← jstrOpt a "flavor") (← jstrs a "extra")
+  pure t
+
+def mappingOf (adds : List Json) : Except String Mapping := do
+  let mut m : Mapping := {}
+  for a in adds do
+    m := m.add (← jstr a "inP") (← jstr a "inV") (← jstrOpt a "outP") (← jstrOpt a "outV") (← jstr a "flavor")
+      (← jbool a "overwrite")
+  pure m
+
+def dumpTable (t : MapTable) : Json :=
+  Json.arr (t.flatMap fun (f, byP) => byP.flatMap fun (p, byV) =>
+    if byV.isEmpty then [Json.arr #[ofStr f, ofStr p, Json.null, Json.null, Json.null]]
+    else byV.map fun (v, (op, ov)) => Json.arr #[ofStr f, ofStr p, ofStr v, ofStr op, ofStrOpt ov]).toArray
+
+def pairToJson (r : Str × Option Str) : Json := Json.arr #[ofStr r.1, ofStrOpt r.2]
+
+/-- ops (see harness/c18.py):
+`mwrite` `mread` (manifest), `twrite` `tread` (tag list), `mapping` (adds, queries, inverse), `remap` -/
+def handle : Handler := fun j => do
+  let op ← (← j.getObjVal? "op").getStr?
+  match op with
+  | "mwrite" =>
+    let deps ← (← jarr j "deps").mapM depOfJson
+    let m : Manifest := { product := ← jstrOpt j "product", version := ← jstrOpt j "version", deps := deps }
+    let o : WriteOpts := { noOptional := ← jbool j "noOptional", flavor := ← jstrOpt j "flavor", native := ← jstr j "native" }
+    let text := if (← jbool j "pinned") then writePinned o [] m else write o [] m
+    pure (Json.mkObj [("text", ofStr text)])
+  | "mread" =>
+    match read (← jbool j "pinned") (← jbool j "recurse") (← jstr j "text") with
+    | .error e => pure (Json.mkObj [("error", errName e)])
+    | .ok m => pure (Json.mkObj [("product", ofStrOpt m.product), ("version", ofStrOpt m.version),
+                                 ("deps", Json.arr (m.deps.map depToJson).toArray)])
+  | "twrite" =>
+    let t ← tagListOf j
+    pure (Json.mkObj [("text", ofStr (t.write (← jstrOpt j "flavor") [])),
+                      ("products", Json.arr (t.getProducts.map ofStrs).toArray)])
+  | "tread" =>
+    let t ← tagListOf j
+    match t.read (← jstr j "text") with
+    | .error e => pure (Json.mkObj [("error", errName e)])
+    | .ok t' => pure (Json.mkObj [("products", Json.arr (t'.getProducts.map ofStrs).toArray)])
+  | "mapping" =>
+    let m ← mappingOf (← jarr j "adds")
+    let qs ← (← jarr j "queries").mapM fun q => do
+      match (← q.getArr?).toList with
+      | [p, v, f] => pure (Str.ofString (← p.getStr?), Str.ofString (← v.getStr?), Str.ofString (← f.getStr?))
+      | _ => throw "query: [product, version, flavor]"
+    let fwd := qs.map fun (p, v, f) => m.apply p v f
+    let invJ : Json := match m.inverse with
+      | none => Json.str "RuntimeError"
+      | some inv =>
+        Json.mkObj [("dump", dumpTable inv.map),
+          ("back", Json.arr ((qs.zip fwd).map fun ((_, _, f), (p, v)) =>
+            match v with
+            | none => Json.null
+            | some v => pairToJson (inv.apply p v f)).toArray)]
+    pure (Json.mkObj [("dump", dumpTable m.map), ("noReinstall", dumpTable m.noReinstall),
+                      ("applied", Json.arr (fwd.map pairToJson).toArray), ("inverse", invJ)])
+  | "remap" =>
+    let m0 ← mappingOf (← jarr j "adds")
+    let files ← (← jarr j "files").mapM fun f => do (← f.getArr?).toList.mapM fun l => do pure (Str.ofString (← l.getStr?))
+    let mode ← jstrOpt j "mode"
+    let pinned ← jbool j "pinned"
+    match (if pinned then readRemapFilesPinned mode files else readRemapFiles mode files) with
+    | none => pure (Json.mkObj [("error", "parse")])
+    | some fromFiles =>
+      let m := m0.merge fromFiles false
+      let deps ← (← jarr j "deps").mapM depOfJson
+      pure (Json.mkObj [("deps", Json.arr ((remapDeps m (← jstr j "flavor") deps).map depToJson).toArray),
+                        ("dump", dumpTable m.map)])
+  | "server" =>
+    -- {files: [[tag, text]..], reqs: [{op: list|info|tagsfor, tag, flavor|null, product, version}], byTagOnly}
+    let files ← (← jarr j "files").mapM fun f => do
+      match (← f.getArr?).toList with
+      | [t, x] => pure (Str.ofString (← t.getStr?), Str.ofString (← x.getStr?))
+      | _ => throw "file: [tag, text]"
+    let byTag ← jbool j "byTagOnly"
+    let mut cache : TagCache := []
+    let mut out : Array Json := #[]
+    for rq in (← jarr j "reqs") do
+      let k ← (← rq.getObjVal? "op").getStr?
+      let tag ← jstr rq "tag"
+      let fl ← jstrOpt rq "flavor"
+      let prod : Str := (jstr rq "product").toOption.getD []
+      let req := if k == "list" then Req.list tag fl else Req.info tag fl prod
+      let (a, c') := serve1 byTag files cache req
+      cache := c'
+      let errJ (e : ServeErr) : Json := match e with
+        | .notFound => Json.mkObj [("error", "notfound")]
+        | .read e => Json.mkObj [("error", errName e)]
+      let ver : Str := (jstr rq "version").toOption.getD []
+      let aj : Json := match a with
+        | .err e => errJ e
+        | .products l => Json.mkObj [("products", Json.arr (l.map ofStrs).toArray)]
+        | .info i =>
+          if k == "tagsfor" then
+            -- getTagNamesFor(product, version, flavor, tags=[tag]): the tag iff the listed version is that version
+            let hit := match i with
+              | some (_ :: _ :: v :: _) => v == ver
+              | _ => false
+            Json.mkObj [("tags", Json.arr (if hit then #[ofStr tag] else #[]))]
+          else Json.mkObj [("info", match i with | none => Json.null | some l => ofStrs l)]
+      out := out.push aj
+    pure (Json.mkObj [("answers", Json.arr out)])
+  | _ => throw s!"unknown op {op}"
+
 end EupsModel.Drv.C18
